@@ -302,8 +302,8 @@ pub fn extra_stages(prop: &str, tier: Tier, seed: u64, _scratch: &Path) -> Extra
         let st = if quick { quick_stride } else { 1 };
         Segment { world, from: 0, to: n, sweep: true, stride: st, offset: seed % st }
     };
-    // the destructure! cells sit at the end of the sweep list and always run under Miri
-    let n_destr = <crate::worlds::byvalue::ByValueWorld as World>::sweep_names().iter().filter(|n| n.starts_with("destructure/")).count() as u64;
+    // the fault-free exhaustion cells and the destructure! cells sit at the end of the sweep list and always run under Miri
+    let n_destr = <crate::worlds::byvalue::ByValueWorld as World>::sweep_names().iter().filter(|n| n.starts_with("destructure/") || n.starts_with("exhaustion/")).count() as u64;
     let segments = vec![
         Segment { world: "byvalue", from: 0, to: sweep_len - n_destr, sweep: true, stride, offset: seed % stride },
         Segment { world: "byvalue", from: sweep_len - n_destr, to: sweep_len, sweep: true, stride: 1, offset: 0 },
